@@ -88,11 +88,13 @@ CLAIMED = {
             "Theorems (Props/C01.lean): for every rank, size vector, monotonicity set, any number of Edgeworth trusts of "
             "either direction and any bounds, and EVERY input kernel (arbitrary Dykstra output), finalize+clip returns a "
             "kernel monotone along every monotone axis, meeting every Edgeworth inequality and the bounds "
-            "(C01_strict_edgeworth_class), transported to the executable table model by per-step locality "
-            "(finalizeT_agree, C01_exec_edgeworth_class). Trapezoid configurations: partial - covered by the "
-            "correspondence+oracle each run; the class violating the property is proved as a counter-witness "
+            "(C01_strict_edgeworth_class); likewise for any number of trapezoid trusts (shared conditional axes allowed) "
+            "without Edgeworth trusts (C01_strict_trapezoid_class); both transported to the executable table model by "
+            "per-step locality (finalizeT_agree, C01_exec_*). Configurations mixing Edgeworth and trapezoid trusts: partial - "
+            "covered by the correspondence+oracle each run; the class violating the property is proved as a counter-witness "
             "(C01_counter_witness) and listed as known finding F-C01-a.",
-            "4/C01", "C01_full (all configurations) is NOT proved: trapezoid stages are modelled and tied, not proved. "),
+            "4/C01", "C01_full (all configurations) is NOT proved: with both trust kinds present the max-behind / running-max "
+            "trapezoid modes are modelled and tied, not proved; the Dykstra part of feasible=>unchanged is C08's theorem. "),
     "C08": ("Lean 4 model of project_by_dykstra (all group projections + schedule) + differential correspondence per family and "
             "combined + fixpoint / convergence / QP-nearest-point oracle (scipy SLSQP)",
             "Theorems (Props/C08.lean): feasible/fixed kernels are returned unchanged by the Dykstra loop with all "
